@@ -2822,12 +2822,14 @@ class Parameters:
         triggers = {p:self_[p]._autotrigger_value
                     for p in trigger_params if p in param_names}
 
+        # Look the names up first: an unknown name must fail before the
+        # events queued so far have been set aside
+        param_values = self_.values()
+        params = {name: param_values[name] for name in param_names}
         events = self_._events
         watchers = self_._state_watchers
         self_._events  = []
         self_._state_watchers = []
-        param_values = self_.values()
-        params = {name: param_values[name] for name in param_names}
         TRIGGER = self_._TRIGGER
         self_._TRIGGER = True
         try:
